@@ -3,7 +3,7 @@ from .. import gen
 from . import common
 
 SPEC_THEOREM = 'Props/C17: writer (pre) = pre ++ writer []; offsets are positions in the same buffer; errors append nothing'
-TRUSTED = ['Coq 8.16.1 kernel', 'translator', 'extraction + OCaml driver', 'Rust harness', 'buffer-explicit models Codec.v (Encoder), PathSem.v (build_*), Dispatch.v']
+TRUSTED = ['Coq 8.16.1 kernel', 'translator', 'extraction + OCaml driver', 'Rust harness', 'buffer-explicit models Codec.v (Encoder), Builder.v, SelWalk.v (writers), EditWalk.v / EditWalk2.v / SetWalk.v (editors), ComparableWalk.v']
 ASSUMPTIONS = ['inputs are canonical encodings of well-formed values']
 RULE = 'every buffer-writing function (incl. size-preserving updates of an existing member) called with the empty buffer and with prefixes (1 byte, a previous result, 4 KiB); the prefixed result must equal prefix ++ result-on-empty and offsets must be shifted by the prefix length; non-trivial = something appended'
 
